@@ -872,11 +872,20 @@ def w_value(node):
     raise TypeError(k)
 
 
+DEFAULT_TEXT = [False]  # True: a default value is encoded as one leaf carrying its printed text (print_ast)
+
+
 def w_arg(name, a):
     from graphql.utilities import get_default_value_ast
     ast = get_default_value_ast(a)
-    return (w_text(name) + w_tref(a.type) + ([0] if ast is None else [1] + w_value(ast))
-            + w_opt(a.description) + w_opt(a.deprecation_reason))
+    if ast is None:
+        dv = [0]
+    elif DEFAULT_TEXT[0]:
+        from graphql import print_ast
+        dv = [1, 3] + w_text(print_ast(ast))
+    else:
+        dv = [1] + w_value(ast)
+    return w_text(name) + w_tref(a.type) + dv + w_opt(a.description) + w_opt(a.deprecation_reason)
 
 
 def w_args(args):
@@ -934,17 +943,19 @@ def w_directive(d):
     return out
 
 
-def encode_schema(schema, all_types=False, canon_defaults=False):
+def encode_schema(schema, all_types=False, canon_defaults=False, default_text=False):
     """Real GraphQLSchema -> wire.  all_types=False: only defined types and non-specified directives
     (what print_schema shows); True: the whole type map and every directive (for introspection).
     canon_defaults: sort the fields of object literals in default values (a default held as a Python value is
     printed in the field order of its input type, which sorting the schema changes)."""
     from graphql import is_specified_directive
     CANON_DEFAULTS[0] = canon_defaults
+    DEFAULT_TEXT[0] = default_text
     try:
         return _encode_schema(schema, all_types)
     finally:
         CANON_DEFAULTS[0] = False
+        DEFAULT_TEXT[0] = False
 
 
 def _encode_schema(schema, all_types):
@@ -956,9 +967,9 @@ def _encode_schema(schema, all_types):
         + w_opt(root(schema.subscription_type)) + [len(types)]
     for t in types:
         if is_std_type_name(t.name) and not CANON_DEFAULTS[0]:
-            c = _STD_CACHE.get(id(t))
+            c = _STD_CACHE.get((id(t), DEFAULT_TEXT[0]))
             if c is None:
-                c = _STD_CACHE[id(t)] = (t, w_type(t))
+                c = _STD_CACHE[(id(t), DEFAULT_TEXT[0])] = (t, w_type(t))
             out += c[1]
         else:
             out += w_type(t)
@@ -1080,4 +1091,44 @@ def w_defs(document):
             out.append(1 if kind == 5 and not ext and is_one_of(d) else 0)
         else:
             out.append(5)
+    return out
+
+
+# --------------------------------------------------------------------------- JSON <-> wire
+
+
+def w_json(j):
+    if j is None:
+        return [0]
+    if isinstance(j, bool):
+        return [1, 1 if j else 0]
+    if isinstance(j, str):
+        return [2] + w_text(j)
+    if isinstance(j, (list, tuple)):
+        out = [3, len(j)]
+        for x in j:
+            out += w_json(x)
+        return out
+    if isinstance(j, dict):
+        out = [4, len(j)]
+        for k, v in j.items():
+            out += w_text(k) + w_json(v)
+        return out
+    raise TypeError(f"not a JSON value of the introspection result: {j!r}")
+
+
+def r_json(r):
+    t = r.n()
+    if t == 0:
+        return None
+    if t == 1:
+        return bool(r.n())
+    if t == 2:
+        return r.text()
+    if t == 3:
+        return [r_json(r) for _ in range(r.n())]
+    out = {}
+    for _ in range(r.n()):
+        k = r.text()
+        out[k] = r_json(r)
     return out
